@@ -261,6 +261,9 @@ func (w *CliWorld) startCaller(k int) {
 		req := appBuildRequest(q, k)
 		res := &fasthttp.Response{}
 		ctx := &http2.Ctx{Request: req, Response: res, Err: make(chan error, 1)}
+		// whoever learns of ctx through the scheduler (the cancel goroutine) takes the same mutex first: the application
+		// would hand the Ctx over through some synchronisation of its own
+		appSync(&w.ctxMu[k])
 		cev <- callerEvent{kind: "start", k: k, ctx: ctx}
 		h2.Write(ctx)
 		appSync(&w.ctxMu[k])
